@@ -54,6 +54,10 @@ func (m ClientState) GetLatestHeight() exported.Height {
 }
 
 func (m ClientState) Validate() error {
+	// the epoch is used as a divisor (height % epoch) when initializing, upgrading and updating the client
+	if m.Epoch == 0 {
+		return sdkerrors.Wrap(ErrInvalidEpoch, "epoch cannot be zero")
+	}
 	return m.Header.ValidateBasic()
 }
 
